@@ -10,7 +10,9 @@ ObsArgs(e) == {[name |-> e.args[i].name, vals |-> e.args[i].vals] : i \in 1..Len
 TraceInit == l = 1 /\ total = TRUE /\ faithful = TRUE
 MStep == /\ l <= Len(Trace) /\ l' = l + 1
          /\ total' = ~E.panic
-         /\ faithful' = (WellFormed(E.tag) => (~E.panic /\ Value(E.tag) = E.value /\ Args(E.tag) = ObsArgs(E) /\ IsRequired(E.tag) = E.required))
+         /\ faithful' = (WellFormed(E.tag) => (/\ ~E.panic /\ Value(E.tag) = E.value /\ Args(E.tag) = ObsArgs(E) /\ IsRequired(E.tag) = E.required
+                                               \* the same tag on a struct field, through a real tag scanner whose Required default is unset / set
+                                               /\ ("scanUnset" \in DOMAIN E) => (E.scanUnset = (IF IsRequired(E.tag) THEN 1 ELSE 0) /\ E.scanSet = E.scanUnset)))
 MonitorSpec == TraceInit /\ [][MStep]_<<l, total, faithful>>
 C19_Total == total
 C19_Faithful == faithful
